@@ -23,6 +23,7 @@ from pyglove.core import geno
 from pyglove.core import logging
 from pyglove.core import symbolic
 from pyglove.core import utils
+from pyglove.core.utils import _verif_hooks
 from pyglove.core.tuning import backend
 from pyglove.core.tuning.early_stopping import EarlyStoppingPolicy
 from pyglove.core.tuning.protocols import Feedback
@@ -102,9 +103,11 @@ class _InMemoryFeedback(Feedback):
       elapse_secs: float) -> None:
     """Adds a measurement to current trial."""
     if self._trial.status != 'PENDING':
+      _verif_hooks.emit('add_measurement', id=self._trial.id, ok=0)
       raise RaceConditionError(
           f'Measurements can only be added to PENDING trials. '
           f'Encountered: {self._trial}')
+    _verif_hooks.emit('add_measurement', id=self._trial.id, ok=1)
     self._trial.measurements.append(Measurement(
         step=step,
         reward=reward,
@@ -119,13 +122,20 @@ class _InMemoryFeedback(Feedback):
     del related_links
     # Test-and-set of the status under the study lock: only one of several
     # co-workers completes (and feeds back) the trial.
+    _verif_hooks.emit('want_study', sid=id(self._study), sec=3)
     with self._study._lock:  # pylint: disable=protected-access
+      _verif_hooks.emit('acquire_study', sid=id(self._study), sec=3)
       pending = self._trial.status == 'PENDING'
       if pending:
+        _verif_hooks.emit('done_test', id=self._trial.id, pending=1)
         if not self._trial.measurements:
           raise ValueError(
               f'At least one measurement should be added for trial {self.id}.')
         self._trial.status = 'COMPLETED'
+        _verif_hooks.emit('done_set', id=self._trial.id, infeasible=0)
+      else:
+        _verif_hooks.emit('done_test', id=self._trial.id, pending=0)
+    _verif_hooks.emit('release_study', sid=id(self._study), sec=3)
     if pending:
       self._trial.final_measurement = self._trial.measurements[-1]
       self._feedback_fn(self.dna, self._trial)
@@ -135,13 +145,20 @@ class _InMemoryFeedback(Feedback):
   def skip(self, reason: Optional[str] = None) -> None:
     """Skips current trial without providing feedback to the controller."""
     del reason
+    _verif_hooks.emit('want_study', sid=id(self._study), sec=3)
     with self._study._lock:  # pylint: disable=protected-access
+      _verif_hooks.emit('acquire_study', sid=id(self._study), sec=3)
       pending = self._trial.status == 'PENDING'
       if pending:
+        _verif_hooks.emit('skip_test', id=self._trial.id, pending=1)
         self._trial.status = 'COMPLETED'
+        _verif_hooks.emit('done_set', id=self._trial.id, infeasible=1)
         self._trial.infeasible = True
         self._trial.final_measurement = Measurement(
             reward=0.0, step=0, elapse_secs=0.0)
+      else:
+        _verif_hooks.emit('skip_test', id=self._trial.id, pending=0)
+    _verif_hooks.emit('release_study', sid=id(self._study), sec=3)
     if pending:
       self._study._complete_trial(self._trial)  # pylint: disable=protected-access
 
@@ -167,6 +184,7 @@ class _InMemoryFeedback(Feedback):
   def end_loop(self) -> None:
     """Ends current search loop."""
     self._study._set_active(False)  # pylint: disable=protected-access
+    _verif_hooks.emit('end_loop', sid=id(self._study))
 
 
 class _InMemoryResult(Result):
@@ -192,32 +210,52 @@ class _InMemoryResult(Result):
   def create_trial(
       self, dna_fn: Callable[[], geno.DNA], group_id: str) -> Trial:
     """Appends a trial to the result."""
+    _verif_hooks.emit('want_study', sid=id(self), sec=1)
     with self._lock:
+      _verif_hooks.emit('acquire_study', sid=id(self), sec=1)
       if (self._max_num_trials is not None
           and self.next_trial_id() > self._max_num_trials):
+        _verif_hooks.emit('check_max', stop=1, n=len(self._trials))
         raise StopIteration()
+      _verif_hooks.emit('check_max', stop=0, n=len(self._trials))
       trial = Trial(id=self.next_trial_id(), dna=dna_fn(), status='PENDING',
                     created_time=int(time.time()), metadata=dict())
+      _verif_hooks.emit('alloc', id=trial.id)
       self._trials.append(trial)
       self._num_trials_by_status['PENDING'] += 1
       self._latest_trial_per_group[group_id] = trial
+      _verif_hooks.emit(
+          'append_trial', id=trial.id, n=len(self._trials),
+          pending=self._num_trials_by_status['PENDING'], group=str(group_id))
+    _verif_hooks.emit('release_study', sid=id(self), sec=1)
     return trial
 
   def _complete_trial(self, trial: Trial) -> None:
     """Status change callback."""
+    _verif_hooks.emit('want_study', sid=id(self), sec=2)
     with self._lock:
+      _verif_hooks.emit('acquire_study', sid=id(self), sec=2)
       self._num_trials_by_status['COMPLETED'] += 1
       self._num_trials_by_status['PENDING'] -= 1
+      _verif_hooks.emit(
+          'complete_counts', id=trial.id,
+          completed=self._num_trials_by_status['COMPLETED'],
+          pending=self._num_trials_by_status['PENDING'])
       if trial.infeasible:
         self._num_infeasible += 1
       else:
         best = self._best_trial
+        _verif_hooks.emit('best_read', best=best.id if best else 0)
         if (best is None or (
             trial.final_measurement.reward is not None
             and best.final_measurement.reward
             < trial.final_measurement.reward)):
           self._best_trial = trial
       self._last_update_time = datetime.datetime.now(tz=datetime.timezone.utc)
+      _verif_hooks.emit(
+          'complete', id=trial.id, infeasible=self._num_infeasible,
+          best=self._best_trial.id if self._best_trial else 0)
+    _verif_hooks.emit('release_study', sid=id(self), sec=2)
 
   @property
   def metadata(self) -> Dict[str, Any]:
@@ -305,13 +343,19 @@ class _InMemoryBackend(backend.Backend):
     """Constructor."""
     super().__init__()
 
+    _verif_hooks.emit('want_reg', sec=1)
     with _in_memory_results_lock:
+      _verif_hooks.emit('acquire_reg', sec=1)
       if name is None or name not in _in_memory_results:
+        _verif_hooks.emit('goc_test', found=0, sid=0)
         study = _InMemoryResult(name, num_examples)
         if name is not None:
           _in_memory_results[name] = study
+          _verif_hooks.emit('goc_store', sid=id(study))
       else:
         study = _in_memory_results[name]
+        _verif_hooks.emit('goc_test', found=1, sid=id(study))
+    _verif_hooks.emit('release_reg', sec=1)
 
     if group is None:
       group = str(threading.get_ident())
@@ -323,13 +367,19 @@ class _InMemoryBackend(backend.Backend):
 
     # NOTE(daiyip): algorithm can continue if it's already set up with the same
     # DNASpec, or we will setup the algorithm with input DNASpec.
+    _verif_hooks.emit('want_reg', sec=2)
     with _in_memory_results_lock:
+      _verif_hooks.emit('acquire_reg', sec=2)
       if algorithm.dna_spec is None:
+        _verif_hooks.emit('setup_test', needed=1)
         algorithm.setup(dna_spec)
       elif symbolic.ne(algorithm.dna_spec, dna_spec):
         raise ValueError(
             f'{algorithm!r} has been set up with a different DNASpec. '
             f'Existing: {algorithm.dna_spec!r}, New: {dna_spec!r}.')
+      else:
+        _verif_hooks.emit('setup_test', needed=0)
+    _verif_hooks.emit('release_reg', sec=2)
 
     if early_stopping_policy:
       if early_stopping_policy.dna_spec is None:
@@ -368,6 +418,7 @@ class _InMemoryBackend(backend.Backend):
     reward = trial.get_reward_for_feedback(self._metrics_to_optimize)
     if reward is not None:
       self._algorithm.feedback(dna, reward)
+      _verif_hooks.emit('fed', id=trial.id)
 
   def _should_stop_early(self, trial: Trial) -> bool:
     if self._early_stopping_policy is not None:
@@ -381,12 +432,18 @@ class _InMemoryBackend(backend.Backend):
       return self._algorithm.propose()
 
     if not self._study.is_active:
+      _verif_hooks.emit('next_active', active=0)
       raise StopIteration()
+    _verif_hooks.emit('next_active', active=1)
 
     # If current session is pending, always return current session.
     trial = self._study.get_latest_trial(self._group_id)
+    _verif_hooks.emit('next_lookup', latest=trial.id if trial else 0)
     if trial is None or trial.status != 'PENDING':
+      _verif_hooks.emit('next_status', reuse=0)
       trial = self._study.create_trial(next_dna, self._group_id)
+    else:
+      _verif_hooks.emit('next_status', reuse=1)
     return self._create_feedback(self._study, trial)
 
   @classmethod
